@@ -1099,6 +1099,10 @@ impl ChainListener for ChainMonitor {
         state.on_remove_block_end(block_hash, decode_state.as_mut().unwrap())
     }
 
+    fn on_streamed_block_abort(&self) {
+        self.decode_state.lock().expect("lock").take();
+    }
+
     fn on_push<F>(&self, f: F)
     where
         F: FnOnce(&mut dyn push_decoder::Listener),
